@@ -684,7 +684,7 @@ ELEM_OK = ['utf8', 'gint', 'guint8', 'Foo.Obj', 'FooObj', 'Foo.Rec', 'filename',
            'GLib.List(utf8)', 'Foo.Enum', 'gchar', 'gint8']
 ELEM_BAD = ['Bar.Baz', 'FooNope', 'utf8(gint)', 'gint,gint']
 ATTR_KEYS = ['org.x.key', 'my.attr', 'a.b', 'gdbus.signature']
-ATTR_VALS = ['v', 'o', 'a{sv}', '1']
+ATTR_VALS = ['v', 'o', 'a{sv}', '1', 'k=w', 'b64==', 'mode=fast=1']
 SIG_GTYPES = ['gint', 'gchararray', 'FooObj', 'gboolean', 'gpointer', 'GStrv', 'FooBoxed', 'guint', 'gdouble',
               'GObject', 'GHashTable', 'FooIface']
 
